@@ -168,6 +168,10 @@ func (x *Exec) applyContract(fc *frameCtx, st *State, i *ssa.Call, callee *ssa.F
 	cfc.entry = st.clone()
 	for k, r := range con.Requires {
 		t := x.evalBool(cfc, st, r, nil)
+		if x.assumeReq != nil && x.assumeReq(name, r) {
+			x.Sc.Assert(tImp(st.Guard, t))
+			continue
+		}
 		if !x.noSafety {
 			site := fmt.Sprintf("%s@%s", r.String(), x.exprText(i, i.Pos()))
 			if x.curLabel != "" {
@@ -436,6 +440,7 @@ func (w *World) registerKeySorts() {
 	}
 	keySorts["G:ghost.cbcount"] = SArrII
 	keySorts["G:ghost.cbarg"] = SArrII
+	keySorts["G:ghost.errcalls"] = SArrII
 }
 
 // ---------------------------------------------------------------------------
@@ -522,9 +527,49 @@ func (x *Exec) execAppend(fc *frameCtx, st *State, i *ssa.Call) Val {
 	return res
 }
 
+// execCopy: copy(dst, src) for slices of structs whose arrays are distinct (asserted as an obligation: the
+// destination was allocated after the source). Every field map of the element type is replaced by an
+// array comprehension (z3 lambda) that reads the source range through the destination range.
 func (x *Exec) execCopy(fc *frameCtx, st *State, i *ssa.Call) Val {
-	oos("copy")
-	return nil
+	cc := i.Common()
+	sl, ok := cc.Args[0].Type().Underlying().(*types.Slice)
+	if !ok {
+		oos("copy into %s", cc.Args[0].Type())
+	}
+	est, isS := isStruct(sl.Elem())
+	if !isS || x.roTables == nil {
+		oos("copy")
+	}
+	dst := x.operand(fc, cc.Args[0], sl).(SliceV)
+	src, ok := x.operand(fc, cc.Args[1], sl).(SliceV)
+	if !ok {
+		oos("copy from %s", cc.Args[1].Type())
+	}
+	sz := mkInt(structSize(sl.Elem()))
+	n := x.Sc.Define("copy_n", tIte(tLe(dst.Len, src.Len), dst.Len, src.Len))
+	// no overlap: the two windows lie in different arrays (checked)
+	x.oblige(st, "copy", x.exprText(i, i.Pos())+": source and destination arrays are distinct", i.Pos(), tNe(dst.Arr, src.Arr), nil)
+	lo := x.Sc.Define("copy_lo", tAdd(dst.Arr, tMul(dst.Off, sz)))
+	hi := x.Sc.Define("copy_hi", tAdd(lo, tMul(n, sz)))
+	delta := x.Sc.Define("copy_d", tSub(tAdd(src.Arr, tMul(src.Off, sz)), lo))
+	for f := 0; f < est.NumFields(); f++ {
+		ft := est.Field(f).Type()
+		if _, nested := isStruct(ft); nested {
+			oos("copy of elements with nested structs")
+		}
+		if _, arr := ft.Underlying().(*types.Array); arr {
+			oos("copy of elements with array fields")
+		}
+		for _, c := range compsOf(ft) {
+			key := fieldKey(sl.Elem(), est, f) + c.Suffix
+			h := x.heapGet(st, key, arrSort(c.Sort))
+			r := mkConst("cr", SInt)
+			body := tIte(tAnd(tLe(lo, r), tLt(r, hi)), mkApp("select", c.Sort, h, tAdd(r, delta)), mkApp("select", c.Sort, h, r))
+			nh := x.Sc.Define("Hcopy_"+sanitize(key), tLambda(r, body, arrSort(c.Sort)))
+			x.heapSet(st, key, nh)
+		}
+	}
+	return n
 }
 
 // ---------------------------------------------------------------------------
@@ -569,6 +614,21 @@ func (x *Exec) execInvoke(fc *frameCtx, st *State, i *ssa.Call) Val {
 			ms := x.W.Prog.MethodSets.MethodSet(dt)
 			if sel := ms.Lookup(m.Pkg(), m.Name()); sel != nil {
 				callee := x.W.Prog.MethodValue(sel)
+				args := []Val{recv.Ref}
+				for k, a := range cc.Args {
+					args = append(args, x.operand(fc, a, callee.Signature.Params().At(k).Type()))
+				}
+				return x.callFunction(fc, st, i, callee, args)
+			}
+		}
+	}
+	if nt, ok := cc.Value.Type().(*types.Named); ok && x.ifaceImpl != nil {
+		if impl := x.ifaceImpl[nt.Obj().Name()]; impl != nil {
+			dt := types.NewPointer(impl)
+			ms := x.W.Prog.MethodSets.MethodSet(dt)
+			if sel := ms.Lookup(m.Pkg(), m.Name()); sel != nil {
+				callee := x.W.Prog.MethodValue(sel)
+				x.safety(st, "dyn", i.Pos(), i, tEq(recv.Tag, mkInt(int64(x.W.typeID(dt)))))
 				args := []Val{recv.Ref}
 				for k, a := range cc.Args {
 					args = append(args, x.operand(fc, a, callee.Signature.Params().At(k).Type()))
